@@ -268,3 +268,13 @@ class Centroid(_Base):
                 return np.column_stack([1.0 - p, p]) if iface == "proba2" else p.reshape(-1, 1)
             return proba
         raise AttributeError(name)
+
+
+class LinBoth(Lin):
+    """Exposes decision_function AND predict_proba (like LogisticRegression); mokapot prefers
+    decision_function, so the scores must be calibrated like those of any decision-function estimator."""
+
+    def predict_proba(self, X):
+        r = self._raw(X)
+        p = 1.0 / (1.0 + np.exp(-r))
+        return np.column_stack([1.0 - p, p])
